@@ -20,6 +20,7 @@ import SvgVerif.Model.ArcBezier
 import SvgVerif.Model.ArcLen
 import SvgVerif.Model.DocShape
 import SvgVerif.Model.Reify
+import SvgVerif.Model.Write
 open Svg Svg.Wire
 
 def fmtMat (m : Mat Float) : String :=
@@ -365,6 +366,11 @@ def docRender (ppi color tf w h tree : String) : String :=
 def step (line : String) : String :=
   match line.splitOn "\t" with
   | ["doc.render", ppi, color, tf, w, h, tree] => docRender ppi color tf w h tree
+  | ["c20.written", t, vt] =>
+      let vi : Option (Mat Float) := if vt = "-" then none else some (Mat.inverse (matOf (fl vt)))
+      "OK " ++ fmtMat (Write.writtenMatrix (matOf (fl t)) vi)
+  | ["c20.dims", vs] =>
+      "OK " ++ " ".intercalate ((fl vs).map fun v => match Write.writeDim v with | some x => hexOfFloat x | none => "-")
   | "path.parse" :: parts => fmtParse (parseSeq parts)
   | ["path.d", r, sm, h] =>
       (match parsePath numOvf [] (stringOfHex h).toList with
